@@ -58,7 +58,10 @@ impl RasterBlitter for MaskSuperBlitter {
         y -= self.y;
         x1 -= self.x;
         x2 -= self.x;
-        x2 = x2.min(self.width * SCALE);
+        // curve edges are stepped approximately and can overshoot their end points by a
+        // pixel or so: keep the span inside the mask on the left as is done on the right
+        x1 = x1.max(0);
+        x2 = x2.min(self.width * SCALE).max(x1);
         let max: u8 = ((1 << (8 - SHIFT)) - (((y & MASK) + 1) >> SHIFT)) as u8;
         let start = (y / 4 * self.width) as usize;
 
@@ -113,6 +116,7 @@ impl RasterBlitter for MaskBlitter {
             return;
         }
 
+        x1 = x1.max(0);
         x2 = x2.min(self.width * SCALE);
 
         x1 >>= SHIFT;
